@@ -302,6 +302,60 @@ def worker(rec, shard, nshards, setups, lits, seed):
                     rec.outcome("prefix-unit")
 
 
+ORDER_FILES = ["HED8.0.0.xml", "HED8.2.0.xml", "HED8.3.0.xml", "HED_score_1.1.0.xml", "HED_score_2.0.0.xml"]
+
+
+def _conversions(files):
+    """For the schemas in the given order (one process): per unit tag the validation codes and the converted value of a bare
+    number, of a number with the class's first plain unit, and with the default unit."""
+    from hed.models.hed_tag import HedTag
+    from hed.models.hed_string import HedString
+    out = {}
+    for f in files:
+        st = Setup(f)
+        for tag in st.tags:
+            texts = [f"{tag.name}/3"]
+            units = [u.name for u, uc in st.orc.units_of(tag) if "unitPrefix" not in u.attrs and " " not in u.name]
+            texts += [f"{tag.name}/3 {u}" for u in units[:2]]
+            for text in texts:
+                try:
+                    codes = sorted(i["code"] for i in st.validator.validate(HedString(text, st.schema), False))
+                except Exception as e:
+                    codes = ["RAISES:" + type(e).__name__]
+                try:
+                    val = HedTag(text, st.schema).value_as_default_unit()
+                    val = None if val is None else round(float(val), 12)
+                except Exception as e:
+                    val = "RAISES:" + type(e).__name__
+                out[f"{f}|{text}"] = [codes, val]
+    return out
+
+
+def conversions_forward():
+    return _conversions(ORDER_FILES)
+
+
+def conversions_reverse():
+    return _conversions(ORDER_FILES[::-1])
+
+
+def order_check(ctx):
+    """Validation and conversion do not depend on which other schemas the process used before (each order in a fresh
+    interpreter)."""
+    rec = ctx.rec
+    fwd = core.hash_sweep("props.c11", "conversions_forward", [0])[0]
+    rev = core.hash_sweep("props.c11", "conversions_reverse", [0])[0]
+    rec.n("evaluations", 2 * len(fwd))
+    rec.n("transitions", 2 * len(fwd))
+    rec.n("distinct_nontrivial", len(fwd))
+    for key in sorted(fwd):
+        if fwd[key] != rev.get(key):
+            rec.violation("C11:result-depends-on-the-schemas-used-before", case=key, first_to_last=fwd[key],
+                          last_to_first=rev.get(key), order=ORDER_FILES)
+            break
+    rec.outcome("schema-order")
+
+
 def run(ctx):
     files = core.bundled_files() if ctx.thorough else ["HED8.3.0.xml", "HED8.2.0.xml", "HED8.0.0.xml",
                                                        "HED_score_2.0.0.xml"]
@@ -311,6 +365,7 @@ def run(ctx):
                                "tags_with_units": {s.label: len(s.tags) for s in setups},
                                "modifiers": {s.label: len(s.all_mods) for s in setups}}
     ctx.parallel(worker, setups, lits, ctx.seed)
+    order_check(ctx)
     ctx.rec.counts["states"] = len(ctx.rec.states)
 
 
